@@ -31,10 +31,10 @@ def kvs? (x : SExp) : Option (List (Str × Str)) := do
 
 def modelParse (s : Str) : SExp :=
   let full :=
-    match parse s with
-    | some q => SExp.list [.atom "ok", str q.component, .ofNat q.runType, str q.role, str q.entry,
-        str (print q), str (print q), str (absRaw q), .ofBool (matchFull s).isSome]
-    | none => .list [.atom "err", .atom "bad_key", .ofBool (matchFull s).isSome]
+    match modelFullObs s with
+    | .ok q raw path absraw => SExp.list [.atom "ok", str q.component, .ofNat q.runType, str q.role, str q.entry,
+        str raw, str path, str absraw, .ofBool (matchFull s).isSome]
+    | _ => .list [.atom "err", .atom "bad_key", .ofBool (matchFull s).isSome]
   let ent :=
     match parseEntries s with
     | some (c, n, r) => SExp.list [.atom "ok", str c, .ofNat n, str r, .ofBool (matchEntries s).isSome]
@@ -72,22 +72,19 @@ def query? : SExp → Option Query
   | .list [.atom c, n, .atom r, .atom e] => do pure ⟨c.toList, ← n.nat?, r.toList, e.toList⟩
   | _ => none
 
+def resolvedSx : Resolved → SExp
+  | .ok r raw => .list [.atom "ok", str r.component, .ofNat r.runType, str r.role, str r.entry, str raw]
+  | .unresolved => .list [.atom "err", .atom "unresolved"]
+  | .other => .list [.atom "err", .atom "other"]
+
+/-- prints `Spec.C20.modelLookupObs` — the observation the `C20_model_meets_spec_*` theorems are about -/
 def modelLookup (t : List Leaf) (q : Query) (vars : List (Str × Str)) : SExp :=
-  let ex := yamlExists t
-  let pr := SExp.list (.atom "probes" :: (probes ex q).map str)
-  match resolve ex q with
-  | some r =>
-    .list [pr,
-      .list [.atom "resolved", .list [.atom "ok", str r.component, .ofNat r.runType, str r.role, str r.entry, str (print r)]],
-      .list [.atom "get", payloadSx (getComponent t r)],
-      .list [.atom "getq", payloadSx (getComponent t q)],
-      .list [.atom "proc", payloadSx (processComponent t r vars)]]
-  | none =>
-    .list [pr,
-      .list [.atom "resolved", .list [.atom "err", .atom "unresolved"]],
-      .list [.atom "get", .atom "-"],
-      .list [.atom "getq", payloadSx (getComponent t q)],
-      .list [.atom "proc", .atom "-"]]
+  let o := modelLookupObs t q vars
+  .list [.list (.atom "probes" :: o.probes.map str),
+    .list [.atom "resolved", resolvedSx o.resolved],
+    .list [.atom "get", payloadSx o.get],
+    .list [.atom "getq", payloadSx o.getq],
+    .list [.atom "proc", payloadSx o.proc]]
 
 def resolved? : SExp → Option Resolved
   | .list [.atom "ok", .atom c, n, .atom r, .atom e, .atom raw] => do
